@@ -23,7 +23,7 @@ RULE = ('one run = one module object (C02 composer or shipped) serialised 2-4 ti
         'one injective map, Load lines naming the same slot. Monitor: 3 seeded shipped notations per run (propositional, definedness, Kore, nary_app, sorted/kore exists, forall) '
         'applied to seeded argument tuples with pairwise distinct renderings; applications differing at a definition-relevant position must render differently. '
         'Non-trivial = module with a rule/library step or shipped; distinct = distinct event-log digests.')
-PROBES = ['pairs_compared', 'metavar_continuation_lines', 'load_line', 'optimised_pair', 'history_len_ge3', 'notation_pairs_checked', 'equiv_rendered', 'kore_quantifier_rendered']
+PROBES = ['pairs_compared', 'metavar_continuation_lines', 'load_line', 'optimised_pair', 'history_len_ge3', 'notation_pairs_checked', 'equiv_rendered', 'kore_quantifier_rendered', 'notation_nested_in_itself']
 ASSUMPTIONS = ['sentence 1 is a pure function of a notation application: checked as a monitor with seeded arguments, not a simulation result']
 COMPONENTS = dict(_p.COMPONENTS, **{'PrettyPrintingInterpreter, Notation.print_instantiation, proofs/kore.py, proofs/definedness.py notations': 'real'})
 
@@ -154,6 +154,24 @@ def notation_monitor(seed, out):
                     tuples.append(base_args[:i] + [alt] + base_args[i + 1:])
                     break
         tuples.append([B.to_py(gen_ext(rng, k, rng.randint(0, 2), 0.3)) for _ in range(nt.arity)])
+        if len(relevant) >= 2:
+            # the notation nested in itself, to the left and to the right: N(N(a, b), c) and N(a, N(b, c))
+            i, j = rng.sample(relevant, 2)
+            abc = []
+            for _ in range(12):
+                t = B.to_py(gen_ext(rng, k, rng.randint(0, 1), 0.3))
+                if all(t.pretty(opts) != u.pretty(opts) for u in abc):
+                    abc.append(t)
+                if len(abc) == 3:
+                    break
+            if len(abc) == 3:
+                def at(x, y):
+                    l = list(base_args); l[i] = x; l[j] = y
+                    return l
+                a_, b_, c_ = abc
+                tuples.append(at(nt(*at(a_, b_)), c_))
+                tuples.append(at(a_, nt(*at(b_, c_))))
+                out.probe('notation_nested_in_itself')
         rend = []
         for args in tuples:
             try:
